@@ -82,6 +82,11 @@ pub enum Extra {
     DanglingSymlink(String),
     SymlinkLoop(String),
     SymlinkToFile(String, String),
+    /// permission bits of ws/<name> ("" = ws itself), set after everything else exists; they only
+    /// bite in an unprivileged simulated process
+    Mode(String, u32),
+    /// a unix-domain socket file: exists, is neither a regular file nor a directory, cannot be read
+    SocketFile(String),
 }
 
 #[derive(Clone, Copy, Debug, Serialize, Deserialize, PartialEq, Eq, PartialOrd, Ord)]
@@ -110,6 +115,10 @@ pub struct Variant {
     pub dir_seed: u64,
     pub hash_seed: u64,
     pub faults: Vec<Fault>,
+    /// the simulated process runs as an ordinary user that owns the simulated disk (permission
+    /// bits are honoured), not as root
+    #[serde(default)]
+    pub unprivileged: bool,
 }
 
 #[derive(Clone, Debug, Serialize, Deserialize, PartialEq)]
@@ -359,6 +368,25 @@ pub fn lay_out(world: &World, v: &Variant) {
             Extra::SymlinkToFile(n, target) => {
                 let _ = std::os::unix::fs::symlink(ws.join(target), ws.join(n));
             }
+            Extra::SocketFile(n) => {
+                let _ = std::os::unix::net::UnixListener::bind(ws.join(n));
+            }
+            Extra::Mode(..) => {}
+        }
+    }
+    if v.unprivileged {
+        crate::seam::chown_tree(r);
+    }
+    apply_modes(&ws, &v.extras);
+}
+
+/// Permission bits last, deepest path first is not needed: a name is a file or ws itself.
+pub fn apply_modes(ws: &Path, extras: &[Extra]) {
+    use std::os::unix::fs::PermissionsExt;
+    for e in extras {
+        if let Extra::Mode(n, mode) = e {
+            let p = if n.is_empty() { ws.to_path_buf() } else { ws.join(n) };
+            let _ = std::fs::set_permissions(&p, std::fs::Permissions::from_mode(*mode));
         }
     }
 }
@@ -385,7 +413,12 @@ pub fn exec_variant(world: &World, v: &Variant) -> Obs {
     // crashes); inside it the entry point runs on a fresh thread so that the hash keys of std are
     // drawn anew from the seeded randomness
     let hash_seed = v.hash_seed;
+    let unprivileged = v.unprivileged;
     let forked = crate::seam::run_forked(move || {
+    if unprivileged && !crate::seam::drop_privileges() {
+        // (the worker checked at start that this works)
+        unsafe { libc::_exit(97) };
+    }
     crate::seam::capture_begin();
     let result = run_simulated_process(hash_seed, Some(hooks.clone()), move || match entry {
         Entry::Check => (ironplcc::cli::check(&args, false), vec![]),
